@@ -427,19 +427,37 @@ type tcase struct {
 func corr(seed uint64, n int) {
 	r := newRunner(budget)
 	defer r.stop()
-	cs := append(walkerCases(seed, n), seiCorrCases(seed+7, n)...)
-	r.batch(cs, func(i int, res result) {
-		c := cs[i]
-		if res.class == "skipped" {
-			return
-		}
-		if res.class != "ok" {
-			res.value = "" // messages / panic texts are not compared
-		}
-		fmt.Fprintf(out, "W\t%d\t%s\t%s\t%d\t%s\t%s\n", i+1, c.target, hx.Hex(c.in), c.arg, res.class, res.value)
+	id := 0
+	forRounds(n, func(round, m int) {
+		cs := append(walkerCases(seed, round, m, n), seiCorrCases(seed+7, round, m, n)...)
+		r.batch(cs, func(i int, res result) {
+			c := cs[i]
+			if res.class == "skipped" {
+				return
+			}
+			if res.class != "ok" {
+				res.value = "" // messages / panic texts are not compared
+			}
+			id++
+			fmt.Fprintf(out, "W\t%d\t%s\t%s\t%d\t%s\t%s\n", id, c.target, hx.Hex(c.in), c.arg, res.class, res.value)
+		})
 	})
 	out.Flush()
 	fmt.Fprintf(os.Stderr, "corr: %d calls, %d worker starts, %d skipped\n", r.calls, r.restarts, r.skipped)
+}
+
+// forRounds splits n generated inputs into rounds of at most roundSize so that the case lists stay small.
+const roundSize = 20000
+
+func forRounds(n int, f func(round, m int)) {
+	for round, done := 0, 0; done < n || round == 0; round++ {
+		m := n - done
+		if m > roundSize {
+			m = roundSize
+		}
+		f(round, m)
+		done += m
+	}
 }
 
 type failure struct {
@@ -476,8 +494,11 @@ func search(seed uint64, n int) {
 			f.witness, f.desc = w, value
 		}
 	}
-	cs := append(walkerCases(seed+1, n), searchCases(seed+2, n)...)
-	r.batch(cs, func(i int, res result) { check(cs[i], res) })
+	forRounds(n, func(round, m int) {
+		// a tenth of the budget goes to the (modelled, cheap) walkers, the rest to the stage-2 targets
+		cs := append(walkerCases(seed+1, round, m/10, n/10), searchCases(seed+2, round, m, n)...)
+		r.batch(cs, func(i int, res result) { check(cs[i], res) })
+	})
 	keys := make([]string, 0, len(fails))
 	for k := range fails {
 		keys = append(keys, k)
